@@ -439,6 +439,7 @@ def _re_to_z3(pattern, flags=0):
 
     def tr(op, av):
         if op is sc.LITERAL: return z3.Re(z3.StringVal(chr(av)))
+        if op is sc.NOT_LITERAL: return z3.Intersect(anych, z3.Complement(z3.Re(z3.StringVal(chr(av)))))
         if op is sc.ANY: return anych if dotall else z3.Intersect(anych, z3.Complement(nl))
         if op is sc.IN:
             neg = av and av[0][0] is sc.NEGATE
